@@ -17,6 +17,8 @@ from .values import (Sym, SInt, SBool, SReal, SStr, SSeq, Cell, Obj, ExcVal, Bou
                      is_intlike, is_numlike, IntSeq)
 from .ctx import CutPath
 from . import dsl
+from . import msgs
+from .msgs import SMsg
 
 import os
 REPO_PREFIX = os.path.join(os.path.realpath(os.environ.get('PYVC_REPO', '/repo')), '')
@@ -199,6 +201,8 @@ class Interp:
                     r = self.call(Bound(v, fn) if not isinstance(fn, (staticmethod,)) else fn, [], {})
                     return self.truth(r)
             return True
+        if isinstance(v, SMsg):
+            return True            # Message defines __len__ >= 1, meta messages have no __len__/__bool__
         if isinstance(v, (Bound, Closure, GenObj, ExcVal, Opaque)):
             if isinstance(v, Opaque):
                 raise Unsupported('truth of opaque %s' % v.tag)
@@ -387,6 +391,8 @@ class Interp:
 
     # ================================================================ attributes
     def getattr(self, o, name):
+        if isinstance(o, SMsg):
+            return msgs.msg_getattr(self, o, name)
         if isinstance(o, Obj):
             if name == '__class__':
                 return o.cls
@@ -1052,7 +1058,21 @@ class Interp:
             k = self.eval_slice(t.slice, fr)
             self.store_subscript(o, k, v)
         elif isinstance(t, (ast.Tuple, ast.List)):
-            vs = list(self.iterate(v))
+            vv = v.v if isinstance(v, Cell) else v
+            if isinstance(vv, SSeq) and not any(isinstance(x, ast.Starred) for x in t.elts) and \
+                    self.ctx.unique_int(z3.Length(vv.e)) is None:
+                # unpacking a sequence of unknown length: one branch on its length instead of a lazy walk
+                n = len(t.elts)
+                ln = z3.Length(vv.e)
+                if not self.ctx.branch(ln == n):
+                    if self.ctx.branch(ln < n):
+                        py_raise(ValueError, 'not enough values to unpack (expected %d)' % n)
+                    py_raise(ValueError, 'too many values to unpack (expected %d)' % n)
+                vs = [vv.ek.wrap(vv.e[i]) for i in range(n)]
+                for i in range(n):
+                    self.ctx.add_pool(i)
+            else:
+                vs = list(self.iterate(v))
             if any(isinstance(x, ast.Starred) for x in t.elts):
                 raise Unsupported('starred assignment')
             if len(vs) < len(t.elts):
@@ -1108,7 +1128,10 @@ class Interp:
         m = getattr(self, 'e_' + type(e).__name__, None)
         if m is None:
             raise Unsupported('expression ' + type(e).__name__)
-        return m(e, fr)
+        r = m(e, fr)
+        if type(r) is PyList and r.sym is not None:
+            return r.sym           # a list that has been extended by a sequence of unknown length
+        return r
 
     def e_Constant(self, e, fr):
         return e.value
@@ -1140,7 +1163,7 @@ class Interp:
         return out
 
     def e_List(self, e, fr):
-        return self._elts(e.elts, fr)
+        return PyList(self._elts(e.elts, fr))
 
     def e_Tuple(self, e, fr):
         return tuple(self._elts(e.elts, fr))
@@ -1489,6 +1512,12 @@ class Interp:
             l = l.v
         if isinstance(r, Cell):
             r = r.v
+        if isinstance(l, SMsg) or isinstance(r, SMsg):
+            m = l if isinstance(l, SMsg) else r
+            o = r if m is l else l
+            if isinstance(o, (SMsg, Obj)):
+                return SBool(m.e == m.ek.unwrap(o))     # BaseMessage.__eq__: equal attribute dicts
+            py_raise(TypeError, "can't compare message to %s" % _tn(o))
         if isinstance(l, Obj) or isinstance(r, Obj):
             if l is r:
                 k, eqf = mro_lookup(l.cls, '__eq__')
@@ -1867,6 +1896,12 @@ class Interp:
         def gen():
             yield from out
         return GenObj(gen(), '<genexpr>')
+
+
+class PyList(list):
+    """a Python list created by interpreted code; if it is later extended by a sequence of unknown length it
+    turns into a symbolic cell (`sym`), and every later read of it yields that cell"""
+    sym = None
 
 
 class _SymbolicComp(Exception):
